@@ -45,12 +45,15 @@ pub struct Gen {
     pub end_one:       bool,
     /// producers keep reservations outstanding, send them oldest-first and cancel them newest-first (kinds implementing the API)
     pub reserve_ops:   bool,
+    /// the crossbeam Uni channel's setter-based sends may meet a full buffer after their fullness test (they then *wait*, by documented
+    /// design: the retry loop holds scheduling points, so the consumers get their turns and the send completes once there is room)
+    pub crossbeam_setters_may_wait: bool,
 }
 
 impl Default for Gen {
     fn default() -> Self {
         Gen { kinds: &UNI_KINDS, max_streams: &[1, 2, 4], buffers: &[2, 4, 8], max_producers: 3, max_ops: 3, max_consumers: 3, retry: false, fresh_wakers: false,
-              origins: false, prefill: false, canceller: false, churn: false, handles: false, async_ops: false, min_consumers: 1, drop_on_end: false, end_all: false, end_one: false, reserve_ops: false }
+              origins: false, prefill: false, canceller: false, churn: false, handles: false, async_ops: false, min_consumers: 1, drop_on_end: false, end_all: false, end_one: false, reserve_ops: false, crossbeam_setters_may_wait: false }
     }
 }
 
@@ -60,7 +63,8 @@ fn sends_in(script: &[POp]) -> usize {
 }
 
 /// Makes a generated case respect the documented restrictions (construction instead of rejection; applied after shrinking too)
-pub fn sanitize(mut c: ChanCase) -> ChanCase {
+pub fn sanitize(c: ChanCase) -> ChanCase { sanitize_with(c, false) }
+pub fn sanitize_with(mut c: ChanCase, crossbeam_setters_may_wait: bool) -> ChanCase {
     let kind = c.kind;
     let entries = kind.entries();
     let fix = |e: Entry| -> Entry { if entries.contains(&e) || matches!(e, Entry::SendAsync(_)) && kind.has_async() { e } else { Entry::Send } };
@@ -94,7 +98,7 @@ pub fn sanitize(mut c: ChanCase) -> ChanCase {
     c.prefill = c.prefill.min(c.buffer);
     // kinds that *wait* (documented) when full: never let them get full
     let setter_used = c.producers.iter().flatten().any(|o| matches!(o, POp::Send(Entry::SendWith | Entry::SendAsync(_)) | POp::SendRetry(Entry::SendWith | Entry::SendAsync(_)) | POp::AsyncBegin(_)));
-    if kind.waits_when_full() || (kind == ChanKind::UniMoveCrossbeam && setter_used) {
+    if kind.waits_when_full() || (kind == ChanKind::UniMoveCrossbeam && setter_used && !crossbeam_setters_may_wait) {
         let mut room = c.buffer as usize;
         c.prefill = c.prefill.min(room as u8);
         room -= c.prefill as usize;
@@ -172,7 +176,7 @@ pub fn case_strategy(g: Gen) -> BoxedStrategy<ChanCase> {
 
 /// the last step of generation (shared by the proptest strategy and the fuzz decoder): documented restrictions + the roles the options assign
 pub fn finalize_case(g: &Gen, c: ChanCase) -> ChanCase {
-    let mut c = sanitize(c);
+    let mut c = sanitize_with(c, g.crossbeam_setters_may_wait);
     if g.end_all { for k in c.consumers.iter_mut() { k.drop_on_end = true; k.create_late = false; k.stop_after = None; } }
     if g.end_one {
         let n = c.consumers.len() as u8;
@@ -482,9 +486,9 @@ impl Property for C01Uni {
     type Case = ChanCase;
     fn part(&self) -> &'static str { "uni-delivery-sched" }
     fn strategy(&self, _tier: Tier) -> BoxedStrategy<ChanCase> {
-        case_strategy(Gen { kinds: &UNI_KINDS, max_streams: &[1, 2, 4, 8, 16], buffers: &[2, 4, 8, 16, 64], max_producers: 3, max_ops: 4, max_consumers: 3, retry: true, fresh_wakers: false, origins: true, prefill: true, ..Default::default() })
+        case_strategy(Gen { kinds: &UNI_KINDS, max_streams: &[1, 2, 4, 8, 16], buffers: &[2, 4, 8, 16, 64], max_producers: 3, max_ops: 4, max_consumers: 3, retry: true, fresh_wakers: false, origins: true, prefill: true, crossbeam_setters_may_wait: true, ..Default::default() })
     }
-    fn decode(&self, u: &mut arbitrary::Unstructured<'_>) -> Option<ChanCase> { crate::props::uni::decode_chan(u, &Gen { kinds: &UNI_KINDS, max_streams: &[1, 2, 4, 8, 16], buffers: &[2, 4, 8, 16, 64], max_producers: 3, max_ops: 4, max_consumers: 3, retry: true, fresh_wakers: false, origins: true, prefill: true, ..Default::default() }) }
+    fn decode(&self, u: &mut arbitrary::Unstructured<'_>) -> Option<ChanCase> { crate::props::uni::decode_chan(u, &Gen { kinds: &UNI_KINDS, max_streams: &[1, 2, 4, 8, 16], buffers: &[2, 4, 8, 16, 64], max_producers: 3, max_ops: 4, max_consumers: 3, retry: true, fresh_wakers: false, origins: true, prefill: true, crossbeam_setters_may_wait: true, ..Default::default() }) }
     fn cases(&self, tier: Tier) -> u32 { match tier { Tier::Quick => 6_000, Tier::Thorough => 150_000 } }
     fn run(&self, case: &ChanCase) -> RunReport {
         let run = execute(case, Epilogue { drain: true, ..Default::default() });
